@@ -22,7 +22,8 @@ from lib.core import Inconclusive, VERIF, sh
 SPEC = "CallPipeline"
 # (client mode, server mode, nc, ns)
 CONFIGS = [("none", "none", 0, 0), ("legacy", "legacy", 1, 1), ("mw", "mw", 2, 2), ("prepost", "prepost", 2, 2),
-           ("mw", "prepost", 3, 1), ("prepost", "mw", 1, 3), ("none", "prepost", 0, 2), ("legacy", "none", 1, 0)]
+           ("mw", "prepost", 3, 1), ("prepost", "mw", 1, 3), ("none", "prepost", 0, 2), ("legacy", "none", 1, 0),
+           ("none", "none", 0, 0)]   # the last one is the many-callers run: 32 callers, many short rounds
 
 
 def split(path):
@@ -52,13 +53,15 @@ def run(ctx):
     h, schema = codecgen.stage(ctx, idl_files=[os.path.join(VERIF, "idl", "Call.tars")], with_res=False)
     exe = gobuild.build(ctx, "calldrive")
     rounds = ctx.pick(4, 40)
-    pools = [0, 0, 4, 0, 2, 0, 0, 8]
+    pools = [0, 0, 4, 0, 2, 0, 0, 8, 0]
 
     def drive(i):
         cm, sm, nc, ns = CONFIGS[i]
         out = os.path.join(ctx.work, "call%d.ndjson" % i)
+        stress = i == len(CONFIGS) - 1
         rc, so, se = sh([exe, "-cmode", cm, "-smode", sm, "-nc", str(max(nc, 1)), "-ns", str(max(ns, 1)), "-seed", str(ctx.seed * 100 + i),
-                         "-rounds", str(rounds), "-per", "44", "-conc", str(ctx.pick(8, 24)), "-pool", str(pools[i]), "-out", out], timeout=1200)
+                         "-rounds", str(rounds * 6 if stress else rounds), "-per", "48" if stress else "44",
+                         "-conc", "32" if stress else str(ctx.pick(8, 24)), "-pool", str(pools[i]), "-out", out], timeout=1200)
         calls, written = [int(x) for x in so.split()[-2:]]
         return i, out, calls, written
 
@@ -104,7 +107,7 @@ def run(ctx):
                 calls_ev = [e for e in t if e.get("c") == ev.get("c")]
                 ctx.violate(sig, what, {"config": CONFIGS[i], "events_of_call": calls_ev, "offset": f["offset"]})
     # binding self-test: corrupted observations are rejected
-    i0, out0, _, _ = outs[2]
+    i0, out0, _, _ = outs[2]   # the middleware/middleware configuration
     base = split(out0)[0]
     selftest = {}
 
